@@ -363,3 +363,103 @@ var mapSetters = [][4]string{
 	{"banderwagon", "Element", "MapToScalarField", "res"},
 	{"bandersnatch/fr", "Element", "SetBytesLE", "z"},
 }
+
+// the output point of the variable-base MSM's inner routines: written on every path (an untouched accumulator is
+// the all-zero pseudo-point, not the identity)
+var msmOutputs = [][4]string{
+	{"bandersnatch", "", "msmInnerPointProj", "p"},
+	{"bandersnatch", "", "msmReduceChunkPointAffine", "p"},
+	{"bandersnatch", "", "msmReduceChunkPointAffineDMA", "p"},
+}
+
+// RuleD10 — the reducing byte decoders reduce through math/big only.
+func RuleD10(c *Ctx) {
+	c.Rule("D10", "reducing decoders: fr.Element.SetBytes and SetBytesLE hand the complete input to a big.Int (big.Int.SetBytes) and set the receiver through z.SetBigInt(thatInt) on every path to return; nothing else in them writes the receiver. The reduction itself is then SetBigInt's (decided by D4/D9); a hand-written limb reduction on some path is not something these rules can vouch for and is reported")
+	n := 0
+	for _, name := range []string{"SetBytes", "SetBytesLE"} {
+		fn := c.P.Fn("bandersnatch/fr", "Element", name)
+		if fn == nil {
+			c.Unresolved("D10", "fr.Element."+name)
+			continue
+		}
+		c.Saw(core.FnName(fn))
+		n++
+		z, e := fn.Params[0], fn.Params[1]
+		key := name + ":through-SetBigInt"
+		var sets []*ssa.Call
+		var others []string
+		for _, f := range core.Family(fn) {
+			for _, ci := range core.CallsIn(f) {
+				cc := ci.Common()
+				touches := false
+				for _, a := range cc.Args {
+					if p, _, ok := paramPath(a); ok && p == z && f == fn {
+						touches = true
+					}
+				}
+				if !touches {
+					continue
+				}
+				callee := core.Callee(cc)
+				if call, isCall := ci.(*ssa.Call); isCall && core.IsMethod(callee, "bandersnatch/fr", "Element", "SetBigInt") && cc.Args[0] == ssa.Value(z) {
+					sets = append(sets, call)
+					continue
+				}
+				if callee != nil && gnarkObservers[callee.Name()] {
+					continue
+				}
+				others = append(others, fmt.Sprintf("%s at %s", core.CalleeName(cc), c.P.Pos(ci.Pos())))
+			}
+		}
+		core.AllInstrs(fn, func(i ssa.Instruction) {
+			if st, ok := i.(*ssa.Store); ok {
+				if p, _, ok := paramPath(st.Addr); ok && p == z {
+					others = append(others, "a direct limb store at "+c.P.Pos(st.Pos()))
+				}
+			}
+		})
+		var why []string
+		if len(others) > 0 {
+			sort.Strings(others)
+			why = append(why, "the receiver is also written by "+strings.Join(others, ", ")+": a reduction other than SetBigInt's")
+		}
+		if len(sets) == 0 {
+			why = append(why, "no z.SetBigInt call")
+		}
+		for _, r := range core.Returns(fn) {
+			cut := core.NewCuts()
+			for _, s := range sets {
+				cut.AddInstr(s)
+			}
+			if len(sets) > 0 && !core.MustPass(fn, cut, r) {
+				why = append(why, "the return at "+c.P.Pos(r.Pos())+" is reachable without z.SetBigInt")
+			}
+		}
+		for _, s := range sets {
+			// the integer: big.Int.SetBytes(x) on the same *big.Int before, x the (possibly reordered) complete input
+			v := s.Call.Args[1]
+			fed := false
+			for _, bs := range callsTo(fn, "math/big", "Int", "SetBytes") {
+				if bs.Call.Args[0] != v || !core.Precedes(fn, bs, s) {
+					continue
+				}
+				x := bs.Call.Args[1]
+				if x == ssa.Value(e) || wholeOfValue(x, e) || core.FlowsTo(e, x, func(call *ssa.Call, argIdx int) bool { return true }) {
+					fed = true
+				}
+			}
+			if !fed {
+				why = append(why, "the big.Int handed to SetBigInt at "+c.P.Pos(s.Pos())+" is not filled from the input by big.Int.SetBytes beforehand")
+			}
+		}
+		c.Check(len(why) == 0, "D10", key, fn.Pos(), "fr.Element."+name+": "+strings.Join(uniqStrings(why), "; "), "input -> big.Int.SetBytes -> z.SetBigInt on every path; no other write of z")
+	}
+	c.FloorN("D10", 2, n, "reducing decoders")
+}
+
+func wholeOfValue(v, base ssa.Value) bool {
+	if sl, ok := v.(*ssa.Slice); ok && wholeSlice(sl) {
+		return sl.X == base || wholeOfValue(sl.X, base)
+	}
+	return false
+}
